@@ -217,7 +217,7 @@ def checkScalar (allowNone forbidNegative : Bool) (v : PyVal) : Except Err Store
   | _, _ =>
     if !isNumber v then .error .badUserInput
     else match pyFloat v with
-      | .error e => .error e
+      | .error _ => .error .badUserInput   -- `try: inp = float(inp) / except (TypeError, OverflowError): raise MagpylibBadUserInput`
       | .ok x =>
         if forbidNegative && x.lt (.fin 0) then .error .badUserInput
         else .ok (.scalar x)
